@@ -8,7 +8,7 @@ use crate::{for_both, hx, Ctx, Tier};
 use blsful::*;
 use serde_json::json;
 
-pub const RULE: &str = "grid: edge scalars E (1,2,3,r-1,r-2,2^254,2^255-19 mod r,(r-1)/2,hash-derived,random) x message length classes x contents x 3 schemes x 2 group assignments, plus seeded random (key,len<=1024) cases in the thorough tier. Per case: sign twice (determinism), verify, reference CoreVerify on the same bytes, then sk through {be,le,Vec,serde_bare,serde_json} must re-sign to the same bytes and sig' x pk' through {bytes,serde_bare,serde_json}^2 must verify. A case is distinct by (suite,scheme,sk,msg); non-trivial = signing succeeded and the pairing check was evaluated by both library and reference.";
+pub const RULE: &str = "grid: edge scalars E (1,2,3,r-1,r-2,2^254,2^255-19 mod r,(r-1)/2,hash-derived,random) x message length classes x contents x 3 schemes x 2 group assignments, plus seeded random (key,len<=1024) cases in the thorough tier. Per case: sign twice (determinism), sign with the same scalar under the OTHER group assignment in between and sign again (history independence), verify, reference CoreVerify on the same bytes, then sk through {be,le,Vec,serde_bare,serde_json} must re-sign to the same bytes and sig' x pk' through {bytes,serde_bare,serde_json}^2 must verify. A case is distinct by (suite,scheme,sk,msg); non-trivial = signing succeeded and the pairing check was evaluated by both library and reference.";
 
 pub fn run(ctx: &mut Ctx) {
     for_both!(run_suite, ctx);
@@ -94,6 +94,21 @@ fn one_case<C: Suite>(ctx: &mut Ctx, cell: &str, ename: &str, scheme: Scheme, sk
     ctx.expect(sig2.as_deref() == Some(&sig1b[..]), &format!("C01/nondeterministic/{sigp}"), || {
         detail("two sign calls with equal inputs differ")
     });
+    // history independence: the same scalar used under the OTHER group assignment in between
+    // must neither disturb that signature nor change what this key signs afterwards
+    {
+        let osk = sk_from_rs::<C::Other>(sk_rs);
+        let o = osk.sign(ls, msg).ok();
+        let o_ok = matches!(&o, Some(s) if s.verify(&osk.public_key(), msg).is_ok());
+        ctx.expect(o_ok, &format!("C01/cross-group-history/other-group-signature-rejected/{sigp}"), || {
+            detail("after signing under one group assignment, the same scalar's signature under the other group assignment does not verify")
+        });
+        let sig3 = sk.sign(ls, msg).ok().map(|s| Vec::from(&s));
+        ctx.expect(sig3.as_deref() == Some(&sig1b[..]), &format!("C01/cross-group-history/nondeterministic/{sigp}"), || {
+            detail("signing again after the other group assignment was used gives different bytes")
+        });
+        ctx.count("cross_group_history_checks", 1);
+    }
     let pk = sk.public_key();
     let pkb = pk_bytes(&pk);
     let v = ctx.guard("Signature::verify", || detail("verify"), || sig1.verify(&pk, msg));
